@@ -297,12 +297,10 @@ def gen_bad(rng):
 def gen_smp(rng):
     kind = rng.choice(["fock", "tmsv", "coherent"])
     n = rng.choice([1, 2, 2])
-    bad = rng.choice([None, None, None, "complex-Ul", "n_samples", "length", "negative", "cutoff"])
-    if bad in ("negative", "cutoff") and kind != "fock":
-        bad = "length"
+    bad = rng.choice([None, None, None, None, "complex-Ul", "n_samples", "length"] + (["negative", "cutoff", "negative", "cutoff"] if kind == "fock" else []))
     case = {"family": "smp", "kind": kind, "bad": bad, "n": n, "Ul": _lst(_orth(rng, n)),
             "w": [round(rng.uniform(300, 4000), 2) for _ in range(n)], "t": round(rng.uniform(0, 40), 3),
-            "loss": rng.choice([0.0, 0.0, 1.0, 0.4]), "n_samples": rng.choice([1, 2, 3]), "np_seed": rng.randrange(10 ** 6)}
+            "loss": rng.choice([0.0, 0.0, 1.0, 1.0, 0.4]), "n_samples": rng.choice([1, 2, 3]), "np_seed": rng.randrange(10 ** 6)}
     if kind == "fock":
         st = [rng.choice([0, 1, 1, 2]) for _ in range(n)]
         case["input"] = st
@@ -833,9 +831,16 @@ def check_smp(case):
     elif bad == "negative":
         inp = [-1] + inp[1:]
     elif bad == "cutoff":
-        cutoff = max(max(inp), 1)
-        inp = [cutoff] + inp[1:]
+        inp = [cutoff] + [0] * (len(inp) - 1)  # a Fock state that does not fit below the cutoff
     np.random.seed(case["np_seed"])
+    captured = []
+    orig_run = sf.LocalEngine.run
+
+    def spy_run(self, program, *a, **kw):
+        captured.append(program)
+        return orig_run(self, program, *a, **kw)
+
+    sf.LocalEngine.run = spy_run
     try:
         if kind == "fock":
             smp = dynamics.sample_fock(inp, t, Ul, w, ns, cutoff, loss)
@@ -844,15 +849,64 @@ def check_smp(case):
         else:
             smp = dynamics.sample_coherent(inp, t, Ul, w, ns, loss)
     except ValueError as e:
+        sf.LocalEngine.run = orig_run
+        if bad and captured:
+            return [("malformed:sample_%s:%s:not-validated" % (kind, bad), "sample_%s did not reject malformed arguments (%s) up front; the simulation was started and crashed with %r" % (kind, bad, e))]
         if bad:
             return []
         return [("dynamics:sample_%s:raises:ValueError" % kind, "valid arguments rejected: %r" % (e,))]
     except Exception as e:  # noqa: BLE001
+        sf.LocalEngine.run = orig_run
         return [("dynamics:sample_%s:raises:%s" % (kind, type(e).__name__), "%s arguments (%s) raised %r instead of %s" % ("malformed" if bad else "valid", bad, e, "ValueError" if bad else "returning samples"))]
+    sf.LocalEngine.run = orig_run
     if bad:
         return [("malformed:sample_%s:%s:accepted" % (kind, bad), "sample_%s accepted malformed arguments (%s)" % (kind, bad))]
     out = []
     width = 2 * n if kind == "tmsv" else n
+    # the state the sampler measures (program handed to the engine, measurement removed) against an independently written
+    # program: preparation, U_l^T, exp(-i w_k t) phase rotations, U_l, uniform loss
+    if captured:
+        omega = 2 * math.pi * sc.c * 100.0 * w * 1e-15
+
+        def build(with_impl):
+            prog = sf.Program(width)
+            with prog.context as q:
+                if with_impl:
+                    for c in captured[0].circuit:
+                        if type(c.op).__name__ != "MeasureFock":
+                            c.op | tuple(q[r.ind] for r in c.reg)
+                else:
+                    for i in range(n):
+                        if kind == "fock":
+                            sf.ops.Fock(inp[i]) | q[i]
+                        elif kind == "tmsv":
+                            sf.ops.S2gate(inp[i][0], inp[i][1]) | (q[i], q[i + n])
+                        else:
+                            sf.ops.Dgate(inp[i][0], inp[i][1]) | q[i]
+                    sf.ops.Interferometer(Ul.T) | tuple(q[i] for i in range(n))
+                    for i in range(n):
+                        sf.ops.Rgate(-omega[i] * t) | q[i]
+                    sf.ops.Interferometer(Ul) | tuple(q[i] for i in range(n))
+                    if loss:
+                        for i in range(width):
+                            sf.ops.LossChannel(1 - loss) | q[i]
+            return prog
+
+        try:
+            if kind == "fock":
+                eng_opts = {"cutoff_dim": cutoff}
+                s_impl = sf.Engine("fock", backend_options=eng_opts).run(build(True)).state
+                s_ref = sf.Engine("fock", backend_options=eng_opts).run(build(False)).state
+                same = _close(s_impl.all_fock_probs(), s_ref.all_fock_probs(), 1e-7)
+            else:
+                s_impl, s_ref = _run_gauss(build(True)), _run_gauss(build(False))
+                same = _close(s_impl.means(), s_ref.means(), 1e-8) and _close(s_impl.cov(), s_ref.cov(), 1e-8)
+            if captured[0].num_subsystems != width:
+                same = False
+            if not same:
+                out.append(("dynamics:sample_%s:state" % kind, "the state measured by sample_%s differs from preparation + U_l exp(-iHt) U_l^T + loss %r" % (kind, loss)))
+        except Exception as e:  # noqa: BLE001
+            out.append(("dynamics:sample_%s:state-raises:%s" % (kind, type(e).__name__), "re-running the sampler's program raised %r" % (e,)))
     if len(smp) != ns or any(len(x) != width for x in smp) or any(v < 0 or int(v) != v for x in smp for v in x):
         return [("dynamics:sample_%s:shape" % kind, "expected %d samples of %d non-negative integers, got %r" % (ns, width, smp))]
     if loss == 1.0 and any(any(x) for x in smp):
@@ -1182,7 +1236,7 @@ def search(ctx):
         for sig, what in run_check(case):
             ctx.counterexample(sig, what, {"case": case})
     plan = [("train", ctx.budget(60, 450)), ("sim", ctx.budget(25, 200)), ("dyn", ctx.budget(20, 150)), ("vib", ctx.budget(20, 150)),
-            ("dus", ctx.budget(25, 300)), ("marg", ctx.budget(20, 150)), ("bad", ctx.budget(16, 60)), ("smp", ctx.budget(24, 160))]
+            ("dus", ctx.budget(25, 300)), ("marg", ctx.budget(20, 150)), ("bad", ctx.budget(16, 60)), ("smp", ctx.budget(60, 300))]
     for fam, k in plan:
         for _ in range(k):
             case = GENS[fam](rng, big=not ctx.quick) if fam == "train" else GENS[fam](rng)
